@@ -26,7 +26,7 @@ fn groups_for(prop: &str, ctx: &Ctx) -> Vec<Box<dyn Group>> {
         "C05" => vec![Box::new(c05::Serve), Box::new(c05::Overlap)],
         "C13" => vec![Box::new(c13::Decisions)],
         "C17" => vec![Box::new(c17::Hist::new(ctx))],
-        "C08" => vec![Box::new(c08::Framing)],
+        "C08" => vec![Box::new(c08::Framing), Box::new(c08::Huge)],
         "C20" => vec![Box::new(c20::Pair::new()), Box::new(c20::MuxStreams::new()), Box::new(c20::HostsTls::new())],
         "C10" => vec![Box::new(c10::Nested), Box::new(c10::Ctl)],
         "C11" => vec![Box::new(c11::Chain), Box::new(c10::Nested)],
